@@ -193,6 +193,14 @@ func (app *App) processSubAppsRoutes() {
 				continue
 			}
 
+			// The sub-app may be reachable through this placeholder only (another app mounted under
+			// the same path took its appList entry): splice its own mounts before cloning its routes
+			if subApp := route.group.app; subApp.hasMountedApps() {
+				subApp.mountFields.subAppsRoutesAdded.Do(func() {
+					subApp.processSubAppsRoutes()
+				})
+			}
+
 			// Create a slice to hold the sub-app's routes
 			subRoutes := make([]*Route, len(route.group.app.stack[m]))
 
